@@ -27,7 +27,7 @@ CHECKS = {
         engine="thx",
         category="model_checking",
         technique="stateless model checking of the real storages: threads under a cooperative scheduler (sys.monitoring line events + cooperative locks), processes at SQL-statement level over real SQLite, at syscall level over a simulated file system and at Redis-command level over fakeredis; iterative preemption bounding, state caching for the file system part; brute-force linearizability oracle",
-        text="For every unordered pair of a 19-operation collision-forcing alphabet (incl. the deep-copying list read, with a scheduling point at every trial copy) (plus curated 2x2 and 3x1 programs) all interleavings up to the preemption bound are enumerated for (A) 2-3 real threads sharing one storage object (in-memory, journal, cached RDB, gRPC client) with a scheduling point at every source line of the storage-layer file and at every lock operation, (B) processes/threads with their own connections on one SQLite file with a scheduling point at every SQL statement and commit (single-writer lock modelled, real SQLite executes), (C) processes with their own JournalStorage over one simulated journal file with a scheduling point at every syscall (both lock classes), (D) processes with their own JournalStorage over one Redis journal (fakeredis; Lua and use_cluster paths) with a scheduling point at every Redis command. Each complete history must equal, in return values and final state, some real-time-consistent sequential execution on the same backend.",
+        text="For every unordered pair of a 19-operation collision-forcing alphabet (incl. the deep-copying list read, with a scheduling point at every trial copy) (plus curated 2x2 and 3x1 programs) all interleavings up to the preemption bound are enumerated for (A) 2-3 real threads sharing one storage object (in-memory, journal, cached RDB, gRPC client; also two threads of one caching client next to a foreign worker with its own connection) with a scheduling point at every source line of the storage-layer file and at every lock operation, (B) processes/threads with their own connections on one SQLite file with a scheduling point at every SQL statement and commit (single-writer lock modelled, real SQLite executes), (C) processes with their own JournalStorage over one simulated journal file with a scheduling point at every syscall (both lock classes), (D) processes with their own JournalStorage over one Redis journal (fakeredis; Lua and use_cluster paths) with a scheduling point at every Redis command. Each complete history must equal, in return values and final state, some real-time-consistent sequential execution on the same backend.",
         note="Line-granularity preemption for threads; locks replaced by cooperative ones discovered by type; bounds: threads 2 (mem) / 1 quick, 3 / 2 thorough; SQL 1 / 2; SimFS 2 / 3 with state caching; Redis journal (Lua and use_cluster paths) 2 procs, bound 2. SQLite atomicity failures are known findings (see known_findings.json).",
         design="3/C03",
     ),
@@ -35,7 +35,7 @@ CHECKS = {
         engine="thx",
         category="model_checking",
         technique="stateless model checking of concurrent study.ask()/enqueue workers (real threads under the cooperative scheduler, preemption-bounded) after every bounded sequential prefix history",
-        text="Every prefix history up to depth 2 (thorough 3) over {enqueue, ask, tell, add finished, add WAITING} leaving 1-2 queued trials is followed by 2-3 workers calling study.ask() + suggest (one may enqueue concurrently); all schedules up to the preemption bound with scheduling points at every source line of optuna/study/study.py and the storage-layer file, for workers sharing one Study (in-memory, journal, cached RDB, gRPC client) and for separate Study/JournalStorage objects over one shared journal. Checked: no trial id returned by two asks, enqueued value returned verbatim by suggest and stored, number/user attrs kept, no queued trial left WAITING or bypassed by a fresh trial when enough asks followed the last enqueue.",
+        text="Every prefix history up to depth 2 (thorough 3) over {enqueue, ask, tell, add finished, add WAITING} leaving 1-2 queued trials is followed by 2-3 workers calling study.ask() + suggest (one may enqueue concurrently); all schedules up to the preemption bound with scheduling points at every source line of optuna/study/study.py and the storage-layer file, for workers sharing one Study or being separate journal processes (independently opened, or pickled copies with one shared main-thread ident as forked children have) (in-memory, journal, cached RDB, gRPC client) and for separate Study/JournalStorage objects over one shared journal. Checked: no trial id returned by two asks, enqueued value returned verbatim by suggest and stored, number/user attrs kept, no queued trial left WAITING or bypassed by a fresh trial when enough asks followed the last enqueue.",
         note="Preemption bound 1 (quick) / 2 (thorough); SQLite statement-level double claim is not in this part; ask() raising is recorded as an observation only.",
         design="3/C04",
     ),
@@ -51,7 +51,7 @@ CHECKS = {
         engine="procx",
         category="model_checking",
         technique="stateless model checking with state caching of 2-3 real JournalFileBackend objects over a simulated POSIX file system (every syscall a scheduling point, writes delivered in enumerated chunks)",
-        text="All interleavings of append_logs/read_logs calls from 2-3 backend objects with their own lock objects (2 procs x 1 call: unbounded; 2x2 and 3x1: preemption-bounded), for both lock classes, reader buffer sizes 8192 and 16, warm and cold offset caches and every enumerated cut offset of the designated write; oracle with ghost state: file = merge of whole batches, reads are contiguous slices covering finished appends, single lock holder, cached offsets agree with a fresh reader.",
+        text="All interleavings of append_logs/read_logs calls from 2-3 backend objects with their own lock objects (2 procs x 1 call: unbounded; 2x2 and 3x1: preemption-bounded), for both lock classes, reader buffer sizes 8192 and 16, warm and cold offset caches, a journal that lay idle for longer than the lock's grace period before the run, and every enumerated cut offset of the designated write; oracle with ghost state: file = merge of whole batches, reads are contiguous slices covering finished appends, single lock holder, cached offsets agree with a fresh reader.",
         note="Environment model = SimFS (validated against a real tmpfs directory on sequential traces each run); sleeping pollers are blocked until a path they looked at changes; no crash here.",
         design="3/C07",
     ),
@@ -59,7 +59,7 @@ CHECKS = {
         engine="seqx",
         category="model_checking",
         technique="bounded-exhaustive enumeration of multi-worker call sequences on the real JournalStorage, with all batch splits and all snapshot positions of every resulting log",
-        text="Every sequence of 3 (thorough 4) calls by 2 workers over a 16-operation alphabet that includes the rejected calls and trial creation in a second study, and every sequence with one foreign append landing between a call's append and its read, is executed on real JournalStorage objects sharing one list-backed backend. After every call all workers must equal a fresh replay; every one of the 2^(n-1) batch splits and every (snapshot position, worker) restore + tail must give the same state; a rejected call raises only at its issuer and changes nothing; log_number_read equals the records consumed.",
+        text="Every sequence of 3 (thorough 4) calls by 2 workers over a 16-operation alphabet that includes the rejected calls and trial creation in a second study, and every sequence with one foreign append landing between a call's append and its read, is executed on real JournalStorage objects sharing one list-backed backend. Worker 1 is also run as a pickled copy of worker 0. After every call all workers must equal a fresh replay; every one of the 2^(n-1) batch splits and every (snapshot position, worker) restore + tail must give the same state; a rejected call raises only at its issuer and changes nothing; log_number_read equals the records consumed.",
         note="Backend is a Python list of JSON strings with cut points (real read path, real apply_logs); file/redis specifics are covered by C07/C01.",
         design="3/C06",
     ),
@@ -75,7 +75,7 @@ CHECKS = {
         engine="seqx",
         category="model_checking",
         technique="differential enumeration of the full finite product sampler x pruner x program x seed x storage x split, oracle = the single-call in-memory run",
-        text="For every compatible combination of 8 samplers (GP in thorough), 6 pruners, 10 deterministic define-by-run programs (conditional spaces, reports with pruning, a failing trial, dynamic ranges, 2 objectives, finite spaces), 2 seeds: the 10-trial sequence of (params, intermediate values, state, values) must be identical when repeated, when split into 4+6, 1+9 or 3+3+4 optimize calls, and on every storage (journal file, gRPC proxy over in-memory and cached RDB, cached RDB, each also pre-loaded with another study so that trial ids are offset); copy_study over all ordered pairs of 5 backends must reproduce every trial field and study attribute.",
+        text="For every compatible combination of 8 samplers (GP in thorough), 7 pruners (incl. WilcoxonPruner, the one optimisation-time reader of best_trial), 13 deterministic define-by-run programs (conditional spaces, reports with pruning, sparse steps, a failing trial, dynamic ranges, 2 objectives, finite spaces, exactly tied best values, a NaN grid smaller than the run), 2 seeds: the 10-trial sequence of (params, intermediate values, state, values) must be identical when repeated, when split into 4+6, 1+9 or 3+3+4 optimize calls, and on every storage (journal file, gRPC proxy over in-memory and cached RDB, cached RDB, each also pre-loaded with another study so that trial ids are offset); copy_study over all ordered pairs of 5 backends must reproduce every trial field and study attribute.",
         note="Sequential optimize, deterministic objectives; SQLite stands for RDB; in-process gRPC stub; CMA-ES not installed.",
         design="3/C09",
     ),
